@@ -47,7 +47,7 @@ def prepare_lean(theorem_modules, tier, need_driver=True):
     except Exception:
         st.translate = {"error": out[-500:]}
     if os.path.exists(os.path.join(HERE, "translate", "gen_skeleton.py")) and any(m.endswith("C19") for m in theorem_modules):
-        rc, out = sh("python3 harness/translate/gen_skeleton.py", cwd=ROOT)
+        rc, out = sh("python3 harness/translate/gen_skeleton.py --lean-root lean", cwd=ROOT)
         st.translate["skeleton"] = out.strip().splitlines()[-1] if out.strip() else "?"
     rc, out = sh("lake build driver 2>&1", cwd=LEAN)
     st.driver_ok = rc == 0 and os.path.exists(os.path.join(LEAN, ".lake", "build", "bin", "driver"))
@@ -63,6 +63,10 @@ def prepare_lean(theorem_modules, tier, need_driver=True):
         rc, out = sh(f"lake build {mod} 2>&1", cwd=LEAN)
         if rc != 0:
             info["log"] = out[-3000:]
+            if mod.endswith("C19"):
+                # name the offending function / source line (diagnostic walker)
+                rc2, rep = sh("lake env lean Summer/Proofs/C19Report.lean 2>&1", cwd=LEAN)
+                info["log"] = "C19 diagnostic report:\n" + rep[-2500:] + "\n--- build log ---\n" + out[-1500:]
             st.props[mod] = info
             st.build_ok = False
             continue
